@@ -565,22 +565,30 @@ class SFTPFile(BufferedFile):
                 self._prefetch_extents[num] = (offset, length)
 
     def _async_response(self, t, msg, num):
+        data = None
         if t == CMD_STATUS:
-            # save exception and re-raise it on next file operation
             try:
                 self.sftp._convert_status(msg)
+            except EOFError:
+                # the request was at or beyond the end of the file: there is
+                # simply no data for it (a read at that position will find
+                # out by itself)
+                pass
             except Exception as e:
+                # save exception and re-raise it on next file operation
                 self._saved_exception = e
-            return
-        if t != CMD_DATA:
+        elif t != CMD_DATA:
             raise SFTPError("Expected data")
-        data = msg.get_string()
+        else:
+            data = msg.get_string()
         while True:
             with self._prefetch_lock:
                 # spin if in race with _prefetch_thread
                 if num in self._prefetch_extents:
                     offset, length = self._prefetch_extents[num]
-                    self._prefetch_data[offset] = data
+                    if data is not None:
+                        self._prefetch_data[offset] = data
+                    # the request is answered, whatever the answer was
                     del self._prefetch_extents[num]
                     if len(self._prefetch_extents) == 0:
                         self._prefetch_done = True
